@@ -332,6 +332,25 @@ class Program(object):
     def is_subclass(self, cname, base):
         return base in self.mro(cname)
 
+    def class_constants(self, cname):
+        """{attribute: ast constant value} for plain constant class-level assignments visible from `cname` (nearest class wins)."""
+        out = {}
+        for k in reversed(self.mro(cname)):
+            c = self.classes.get(k)
+            if c is None:
+                continue
+            for st in c.node.body:
+                tgt, val = None, None
+                if isinstance(st, ast.Assign) and len(st.targets) == 1 and isinstance(st.targets[0], ast.Name):
+                    tgt, val = st.targets[0].id, st.value
+                elif isinstance(st, ast.AnnAssign) and isinstance(st.target, ast.Name) and st.value is not None:
+                    tgt, val = st.target.id, st.value
+                if tgt is not None and isinstance(val, ast.Constant):
+                    out[tgt] = val.value
+                elif tgt is not None:
+                    out.pop(tgt, None)
+        return out
+
     def subclasses(self, base):
         if base not in self._subs:
             self._subs[base] = [c for c in self.classes if self.is_subclass(c, base)]
